@@ -372,6 +372,8 @@ def make_write_data(spec: dict, b: Built, scratch: str):
         # the name the library itself looks the channel's data up by (NAME, NAME__1, ... for repeated channel names)
         key = op.get('dataset_name') or getattr(b.handles.get(i), 'dataset_name', None) or op['name']
         items.append((key, b.arrays[i]))
+    if w.get('sort_fields'):
+        items.sort(key=lambda kv: kv[0])        # data sets in the order of their own names, whatever the channels' order
     n0 = items[0][1].shape[0] if items else 1
     for e in range(extra):
         items.insert((e * 2) % (len(items) + 1), (f'__extra{e}', np.arange(n0 * 2, dtype='<f4').reshape(n0, 2)))
